@@ -202,6 +202,30 @@ def layout_probe(ctx):
     return n, fails
 
 
+COLUMNS_RULE = (" Column probe (deterministic, public API, one pool thread): Nucleo::new with k = 1, 2, 3 matcher columns; on the initial stream, on the stream created by "
+                "restart(false) and on the stream created by restart(true): 4 pushes and one extend of 5 items, tick until running = false; every fill callback must be handed "
+                "exactly k columns, and every item returned by Injector::get(i), Snapshot::get_item(i) and Snapshot::get_matched_item(n) must have exactly k matcher columns "
+                "holding the texts its fill callback wrote.")
+
+
+def columns_probe(ctx):
+    """C08 column probe through the public Nucleo API: returns (evaluations, failures)"""
+    rc, out, err, _ = vlib.run([ctx["hn"], "nucleo-cols"], timeout=300)
+    fails = []
+    n = 0
+    for l in out.splitlines():
+        if l.startswith("K ok "):
+            n += 1
+        elif l.startswith("K fail "):
+            n += 1
+            p = l.split(" ", 3)
+            case, _, what = p[3].partition(" :: ")
+            fails.append({"class": p[2], "what": "%s: %s" % (case, what), "case": case})
+    if rc != 0 or n == 0:
+        fails.append({"class": "crash", "what": "the column probe process died (exit status %s) after %d cases: %s" % (rc, n, stderr_gist(err)), "case": "columns"})
+    return n, fails
+
+
 def leak_probe(ctx):
     """C11 leak probe: returns (evaluations, failures)"""
     rc, out, err, _ = vlib.run([ctx["hn"], "leak"], timeout=300)
@@ -223,12 +247,12 @@ def leak_probe(ctx):
 
 def replay_probe(case):
     """re-run a probe case recorded in a replay file; True if `case` was a probe case"""
-    if not (case.startswith("layout") or case.startswith("leak")):
+    if not (case.startswith("layout") or case.startswith("leak") or case.startswith("columns")):
         return False
     hn = vlib.build_harness("hn")
-    cmd = [hn] + case.split(" ") if case.startswith("layout") else [hn, "leak"]
+    cmd = [hn] + case.split(" ") if case.startswith("layout") else [hn, "nucleo-cols"] if case.startswith("columns") else [hn, "leak"]
     rc, out, err, _ = vlib.run(cmd)
-    lines = [l for l in out.splitlines() if not l.endswith(" ok") and not l.startswith("L ok")]
+    lines = [l for l in out.splitlines() if not l.endswith(" ok") and not l.startswith("L ok") and not l.startswith("K ok")]
     print("$ " + " ".join(cmd))
     print("\n".join(lines[-20:]))
     if rc != 0:
